@@ -4,6 +4,7 @@
   struct that breaks the rule now).
 -/
 import HLV.Static.Rules
+import HLV.Static.OwnRules
 namespace HLV.Static
 open HLV.Gen
 
@@ -47,7 +48,12 @@ def report : List (String × String × List String × List String) :=
     ("C15", "raw entry point not unsafe", c15_unsafeEntryPoints.map nm, []),
     ("C15", "Deref does not tie the reference to the guard borrow", c15_derefLifetimes.map nm, []),
     ("C15,C04,C13", "try path reaches a blocking operation", c04_tryReachesBlocking.map nm, []),
-    ("C15,C17", "non-acquiring path reaches a blocking operation", c17_nonAcqReachesBlocking.map nm, []) ]
+    ("C15,C17", "non-acquiring path reaches a blocking operation", c17_nonAcqReachesBlocking.map nm, []),
+    ("C16", "ownership-sensitive primitive (forget / leak / from_raw / drop_in_place / MaybeUninit / transmute …) in a function no ownership model covers", pr c16_unauditedSensitive, []),
+    ("C16", "audited function no longer has an ownership record", pr c16_auditedMissing, []),
+    ("C16", "BoxedLockCollection: call sequence not recognised, or not clean on the heap-cell model (double free / leak / use after free / payload dropped twice or never)", c16_boxedLife.map nm, []),
+    ("C16", "array function is not the fill loop 'slot i := element i' (uninitialised read / leaked value / value at the wrong position)", c16_arrayFills.map nm, []),
+    ("C16", "unlock_all_* forgets something other than the payload of a caught panic", c16_payloadForget.map nm, []) ]
 
 def reportText : String :=
   "\n".intercalate (report.map fun (p, r, bad, known) =>
